@@ -33,7 +33,7 @@ Definition inject_spec (host : hostfn) (fl : list lfile) (o : option oci) (names
   | None => (names, 1, None)
   | Some o0 =>
       match filter (unresolvable fl) names with
-      | _ :: _ as miss => (miss, 1, Some o0)
+      | (_ :: _) as miss => (miss, 1, Some o0)
       | [] => let '(o', code) := apply host (combined fl names) o0 in ([], code, Some o')
       end
   end.
